@@ -58,6 +58,10 @@ func (e *Engine) intercept(fn *ssa.Function, args []Value) (Value, bool) {
 	}
 	switch key {
 	// ---- time
+	case "(time.Time).IsZero":
+		// the engine's time values count from an arbitrary origin: the zero Time is the struct whose instant is 0
+		e.stub(key)
+		return tb.Eq(args[0].(*StructV).F[1].(*Term), e.intConst(64, 0)), true
 	case "time.Now":
 		e.stub(key)
 		e.advanceClock(nil)
@@ -590,7 +594,7 @@ func (e *Engine) clockInit() {
 		return
 	}
 	p.now = e.nondetInt("now", 64, true)
-	lo := e.binopInt(token.GEQ, p.now, e.intConst(64, 0), 64, true).(*Term)
+	lo := e.binopInt(token.GEQ, p.now, e.intConst(64, 1), 64, true).(*Term) // >= 1: a clock reading is never the zero Time
 	hi := e.binopInt(token.LSS, p.now, e.intConstBig(64, true, pow2(61)), 64, true).(*Term)
 	e.addPC(lo)
 	e.addPC(hi)
@@ -837,6 +841,14 @@ func (e *Engine) intrinsic(name string, fn *ssa.Function, args []Value) (Value, 
 		return e.intConst(64, int64(e.tickerResets)), true
 	case "vTickerStops":
 		return e.intConst(64, int64(e.tickerStops)), true
+	case "vTickersRunning": // tickers the library created and that are not in the stopped state now (however often Stop / Reset were called)
+		n := 0
+		for _, c := range e.tickers {
+			if !c.stopped {
+				n++
+			}
+		}
+		return e.intConst(64, int64(n)), true
 	case "vTickerCount":
 		return e.intConst(64, int64(len(e.tickerPeriod))), true
 	case "vTickerPeriod":
